@@ -6,9 +6,10 @@ CONSTANTS
   N = 5
   Hists = {1}
   MaxLen = 2
+  ForkMaxLen = 2
   Forks = {0, 1, 2, 3, 4}
   ForkCkpts = TRUE
-  PinOffsets = {0}
+  PinOffsets = {1}
   Roles = {"Reader"}
   SeekBeyond = TRUE
   StepModes <- MC_StepModesQuick
